@@ -39,6 +39,16 @@ CHECKS = {
         note=AX_R + 'finite entries only in the real-valued model; -inf entries, container types (ndarray/matrix/LnPDF), axes and rounding '
              'are judged on the implementation against 40-digit mpmath; one known finding (axis of length 1 ignores dV).',
         design='6 C04'),
+    'C10': dict(
+        technique='Coq proof over R (list induction, ln/exp lemmas, Gibbs inequality) about terms translated on every run from ln_bayesian_evidence, model_probabilities (unrolled for 2..5 models) and dkl_estimate',
+        text='Theorems in coq/Props/C10.v: the translated evidence equals ln(p * sum exp l / N), shifts with the likelihoods, is '
+             'permutation invariant and exponentiates only arguments <= ln p; the translated model probabilities (2,3,4,5 models, the '
+             'quantified range) are positive, sum to one, have ratios exp(e_i - e_j) and are shift invariant; the translated divergence '
+             'estimate equals ln N + sum w ln w for the normalised weights and lies in [0, ln N] whenever N >= number of non-zero '
+             'samples (Gibbs inequality proved in Lib/Rlist.v). All for arbitrary real vectors, which single literal tests cannot give.',
+        note=AX_R + 'finite log-likelihoods in the lists (zero-probability samples are counted in N only); prior factor p > 0 as a parameter; '
+             'the two-PDF dkl() is covered by the oracle only (zero on identical inputs, non-negative); rounding is judged against mpmath.',
+        design='6 C10'),
 }
 
 NA_REASON = 'check not built yet (work in progress; see DESIGN.md section 6)'
